@@ -1073,6 +1073,13 @@ def _graph_pop(
     elif not is_node_leaf(value):
       continue
     elif id(value) in id_to_index:
+      # a shared Variable that was already popped through another path, remove
+      # this reference too so the Variable is no longer part of the graph.
+      if isinstance(node_impl, PytreeNodeImpl):
+        raise ValueError(
+          f'Cannot pop key {name!r} from node of type {type(node).__name__}'
+        )
+      node_impl.pop_key(node, name)
       continue
 
     node_path = (*path_parts, name)
